@@ -379,7 +379,7 @@ pub fn run_stage(env: &Env, profile: &str, stage: &Stage, budget: u64) -> StageR
     if pidfd >= 0 {
         let mut pfd = libc::pollfd { fd: pidfd, events: libc::POLLIN, revents: 0 };
         loop {
-            let r = unsafe { libc::poll(&mut pfd, 1, 30_000) };
+            let r = unsafe { libc::poll(&mut pfd, 1, 10_000) };
             if r == 0 {
                 timed_out = true;
                 let _ = child.kill();
@@ -518,7 +518,7 @@ pub fn judge_stage(stage_no: usize, stage: &Stage, res: &StageResult, expect: &E
     // ---- C01: the process ends with an exit status, no panic, no hang
     let stderr_s = String::from_utf8_lossy(&res.stderr);
     if res.timed_out {
-        v.push(viol("C01", "cli-hang", stage_no, op.clone(), "terminates".into(), "no exit within the 30 s backstop".into(), needs));
+        v.push(viol("C01", "cli-hang", stage_no, op.clone(), "terminates".into(), "no exit within the 10 s backstop".into(), needs));
     } else if res.code == Some(97) {
         v.push(viol("C01", "cli-hang", stage_no, op.clone(), format!("at most {} intercepted system calls", budget), format!("step budget exceeded; trace tail: {}", tail(&res.trace_raw)), needs));
     } else if res.code == Some(98) {
@@ -708,6 +708,11 @@ pub fn run_case(env: &Env, case: &Case, oracle: &mut Oracle) -> (Vec<Violation>,
         _ => 2048,
     };
     let budget = budget_for(s1, exp_len + 2048);
+    if matches!(pre.0, Expect::Skip) {
+        // the isolated library evaluation is over its step budget: an expensive workload, not judged
+        bump(&mut st.outcome, "skipped-over-budget", 1);
+        return (v, st);
+    }
     let r1 = run_stage(env, &case.profile, s1, budget);
     let (e1, op1) = match s1.form {
         Form::Arg => pre,
@@ -727,6 +732,9 @@ pub fn run_case(env: &Env, case: &Case, oracle: &mut Oracle) -> (Vec<Violation>,
                 _ => 2048,
             };
             let budget2 = budget_for(&s2, exp_len2 + 2048);
+            if matches!(pre2.0, Expect::Skip) {
+                return (v, st);
+            }
             let r2 = run_stage(env, &case.profile, &s2, budget2);
             let (e2, op2) = expectation(&s2.rule_text, intended_bytes(&s2, Some(&r2)).as_deref(), oracle);
             tally(&s2, &r2, &e2, &mut st);
@@ -931,7 +939,8 @@ pub fn main(a: &Args) -> i32 {
     let replay_dir = a.str("replay-dir", ".");
     let profiles: Vec<String> = a.str("profiles", "debug").split(',').map(String::from).collect();
     let det_every = a.u64("determinism-every", 0);
-    let max_shrunk = a.u64("max-shrunk", 4);
+    let max_shrunk = a.u64("max-shrunk", 3);
+    let max_violations = a.u64("max-violations", 6) as usize;
     let started = Instant::now();
     let env = env_from(a);
 
@@ -954,7 +963,7 @@ pub fn main(a: &Args) -> i32 {
     let mut hashes: BTreeMap<String, String> = BTreeMap::new();
 
     let mut i = first + worker;
-    while runs < max_runs && (started.elapsed().as_secs_f64() < seconds || runs == 0) {
+    while runs < max_runs && (started.elapsed().as_secs_f64() < seconds || runs == 0) && violations.len() < max_violations {
         let case_seed = prng::mix(seed, &[crate::tier_id(&tier), 2, i]);
         let mut prof_rng = Rng::new(prng::mix(case_seed, &[0x9f0f]));
         let profile = profiles[prof_rng.below(profiles.len())].clone();
